@@ -231,6 +231,202 @@ func runC04(c *Ctx) {
 	// ---- C04.f / C04.g ----
 	c.clause("C04.f", "T2", "prioritized-task brackets are closed on all exits: a layer that makes a mount/prefetch/check fail must not leave background work blocked forever", 5)
 	c.doDonePairing()
+	c.clause("C04.i", "T5", "a channel filled by worker goroutines that the parent only drains after waiting for them has room for one message per worker (otherwise a second failing worker blocks forever and the wait never returns)", 1)
+	for _, f := range scope {
+		eachInstr(f, func(i ssa.Instruction) {
+			mc, ok := i.(*ssa.MakeChan)
+			if !ok {
+				return
+			}
+			// the variable holding the channel (captured by the workers)
+			var cell ssa.Value
+			for _, r := range *mc.Referrers() {
+				if st, ok := r.(*ssa.Store); ok && st.Val == ssa.Value(mc) {
+					cell = cellRoot(st.Addr)
+				}
+			}
+			if cell == nil {
+				return
+			}
+			isCh := func(v ssa.Value) bool {
+				p, ok := loadOf(stripConv(v))
+				return ok && cellRoot(p) == cell
+			}
+			// senders: literals of f that send on it
+			var senders []*ssa.Function
+			for _, lit := range withAnon(f) {
+				if lit == f {
+					continue
+				}
+				n := 0
+				eachInstr(lit, func(j ssa.Instruction) {
+					if sd, ok := j.(*ssa.Send); ok && isCh(sd.Chan) {
+						n++
+					}
+				})
+				if n > 0 {
+					senders = append(senders, lit)
+				}
+			}
+			if len(senders) == 0 {
+				return
+			}
+			// the parent receives only after waiting for the workers
+			waits := callsIn(f, idIs("sync.(*WaitGroup).Wait", "golang.org/x/sync/errgroup.(*Group).Wait"))
+			var recvs []ssa.Instruction
+			eachInstr(f, func(j ssa.Instruction) {
+				switch x := j.(type) {
+				case *ssa.UnOp:
+					if x.Op == token.ARROW && isCh(x.X) {
+						recvs = append(recvs, j)
+					}
+				case *ssa.Range:
+					if isCh(x.X) {
+						recvs = append(recvs, j)
+					}
+				case *ssa.Next:
+					if rg, ok := x.Iter.(*ssa.Range); ok && isCh(rg.X) {
+						recvs = append(recvs, j)
+					}
+				case *ssa.Select:
+					for _, st := range x.States {
+						if st.Dir == types.RecvOnly && isCh(st.Chan) {
+							recvs = append(recvs, j)
+						}
+					}
+				}
+			})
+			afterWait := len(waits) > 0
+			for _, r := range recvs {
+				if o, _ := mustPass(f, r, newCuts().addCalls(waits)); !o {
+					afterWait = false
+				}
+			}
+			if !afterWait {
+				return // drained concurrently: capacity is not a liveness condition
+			}
+			key := c.fnKey(f) + ":chan-capacity"
+			// each worker sends at most once
+			once := true
+			for _, lit := range senders {
+				var sends []ssa.Instruction
+				eachInstr(lit, func(j ssa.Instruction) {
+					if sd, ok := j.(*ssa.Send); ok && isCh(sd.Chan) {
+						sends = append(sends, j)
+					}
+				})
+				for _, a := range sends {
+					for _, b := range sends {
+						if hit, _ := reach(lit, a, isInstr(b), nil); hit != nil {
+							once = false
+						}
+					}
+				}
+			}
+			// capacity = len(V) and the workers are started once per element of V
+			good := false
+			if lc, ok := stripConv(mc.Size).(*ssa.Call); ok {
+				if b, ok := lc.Call.Value.(*ssa.Builtin); ok && b.Name() == "len" {
+					v := lc.Call.Args[0]
+					eachInstr(f, func(j ssa.Instruction) {
+						l2, ok := j.(*ssa.Call)
+						if !ok || l2 == lc {
+							return
+						}
+						if b2, ok := l2.Call.Value.(*ssa.Builtin); !ok || b2.Name() != "len" {
+							return
+						}
+						if !(stripConv(l2.Call.Args[0]) == stripConv(v) || strictSame(l2.Call.Args[0], v) || sameValue(l2.Call.Args[0], v)) {
+							return
+						}
+						// this len bounds a range loop (compared with the rangeindex)
+						for _, r := range *l2.Referrers() {
+							if cmp, ok := r.(*ssa.BinOp); ok && cmp.Op == token.LSS && isLoopIndex(cmp.X) {
+								good = true
+							}
+						}
+					})
+				}
+			}
+			c.verdict(key, mc.Pos(), good && once, "capacity is the number of workers and each worker sends at most once", "the channel the workers report into is smaller than the number of workers while the parent drains it only after wg.Wait(): two failing workers (two bad sub-archives) make Build hang")
+		})
+	}
+	c.clause("C04.h", "T6", "a slice bound computed as a difference of run-time quantities is clamped to ≥0 or guarded by a dominating comparison of its operands", 0)
+	for _, f := range scope {
+		eachInstr(f, func(i ssa.Instruction) {
+			sl, ok := i.(*ssa.Slice)
+			if !ok {
+				return
+			}
+			for bi, bnd := range []ssa.Value{sl.Low, sl.High} {
+				if bnd == nil {
+					continue
+				}
+				for _, v := range append([]ssa.Value{bnd}, reachingVals(bnd)...) {
+					bo, ok := stripConv(v).(*ssa.BinOp)
+					if !ok || bo.Op != token.SUB {
+						continue
+					}
+					if _, isC := constInt(bo.Y); isC {
+						continue // x-k: clause C04.g
+					}
+					if _, isC := constInt(bo.X); isC {
+						continue
+					}
+					// decided only for differences against the length of a buffer (len(buf) − n): other differences are
+					// arithmetic on chunk geometry, which this clause does not decide
+					isLen := func(v ssa.Value) bool {
+						call, ok := stripConv(v).(*ssa.Call)
+						if !ok {
+							return false
+						}
+						b, ok := call.Call.Value.(*ssa.Builtin)
+						return ok && b.Name() == "len"
+					}
+					if !isLen(bo.X) && !isLen(bo.Y) {
+						continue
+					}
+					which := "low"
+					if bi == 1 {
+						which = "high"
+					}
+					key := fmt.Sprintf("%s:slice-%s %s-%s", c.fnKey(f), which, valName(stripConv(bo.X)), valName(stripConv(bo.Y)))
+					// guarded: a dominating comparison between the two operands on whose taken edge X >= Y
+					ge := condEdges(f, func(cond ssa.Value) int {
+						b, ok := cond.(*ssa.BinOp)
+						if !ok {
+							return 0
+						}
+						x, y := stripConv(b.X), stripConv(b.Y)
+						bx, by := stripConv(bo.X), stripConv(bo.Y)
+						same := func(p, q ssa.Value) bool { return p == q || strictSame(p, q) }
+						switch {
+						case same(x, bx) && same(y, by):
+							switch b.Op {
+							case token.GEQ, token.GTR:
+								return 1
+							case token.LSS:
+								return -1
+							}
+						case same(x, by) && same(y, bx):
+							switch b.Op {
+							case token.LEQ, token.LSS:
+								return 1
+							case token.GTR:
+								return -1
+							}
+						}
+						return 0
+					})
+					okp := false
+					if len(ge) > 0 {
+						okp, _ = mustPass(f, sl, newCuts().addEdges(ge))
+					}
+					c.verdict(key, sl.Pos(), okp, "difference used as a slice bound only where minuend ≥ subtrahend was tested", "a slice bound is the unclamped difference of two run-time quantities (e.g. len(footer) − FooterSize()): a short blob makes it negative and the slice expression panics")
+				}
+			}
+		})
+	}
 	c.clause("C04.g", "T6", "an index of the form x-k (k>0) into a slice is guarded by a dominating test that x >= k", 1)
 	for _, f := range scope {
 		eachInstr(f, func(i ssa.Instruction) {
